@@ -442,14 +442,21 @@ def record(seed, nhist, maxlen, out_path):
             while i < n:
                 cands = h.candidates()
                 act = rnd.choice(cands)
-                ev = h.do(act)
-                if ev is None:
-                    continue
-                if rnd.random() < 0.1:
-                    gc.collect()
+                try:
+                    ev = h.do(act)
+                    if ev is None:
+                        continue
+                    if rnd.random() < 0.1:
+                        gc.collect()
+                    post = h.observe()
+                except Exception as ex:      # noqa: BLE001
+                    # the library raised where the recorder expects a result or a refusal (or its state cannot be read any more):
+                    # that is an observation, not a harness failure - the history ends here and the suite reports it
+                    f.write(json.dumps({"a": "CRASH", "tid": tid, "i": i + 1, "act": act, "error": type(ex).__name__ + ": " + str(ex)[:160]}) + "\n")
+                    break
                 i += 1
                 ev["tid"], ev["i"] = tid, i
-                ev["post"] = h.observe()
+                ev["post"] = post
                 f.write(json.dumps(ev) + "\n")
             f.write(json.dumps({"a": "EOT", "tid": tid, "i": 0}) + "\n")
             h.held.clear()
